@@ -173,13 +173,16 @@ def absTag (c : CST) : QN × List Attr :=   -- body of `stag` / `empty_entity_ta
   let name := match findL N.qname ks with | some q => absQName q | none => ⟨none, []⟩
   (name, (allL N.attribute_ ks).map absAttribute)
 
+/-- the labelled children an element is read from: `element` delegates to `element_body` behind the recursion-depth guard -/
+def elemKids (c : CST) : List (Nat × CST) :=
+  match c.kidsL with | [(n, b)] => if n == N.element_body then b.kidsL else c.kidsL | l => l
+
 mutual
 /-- body of `element`; fuel bounds the nesting depth (supplied as the size of the tree) -/
 def absElement : Nat → CST → Item
   | 0, _ => .elem ⟨none, []⟩ [] []
   | f+1, c =>
-    -- `element` delegates to `element_body` behind the recursion-depth guard
-    let ks := match c.kidsL with | [(n, b)] => if n == N.element_body then b.kidsL else c.kidsL | l => l
+    let ks := elemKids c
     match findL N.empty_entity_tag ks with
     | some t => let (n, as) := absTag t; .elem n as []
     | none =>
